@@ -385,6 +385,78 @@ func c10Scenario(cmd string) *Scenario {
 	return sc
 }
 
+// c10DuringRolloutDeploy: a rollout redeploy is waiting for its new target to become healthy (one probe interval)
+// when `rollout stop` / `rollout set` is issued and returns; when the redeploy has returned too, the split is the one
+// the later command put in force, applied to the new rollout target.
+func c10DuringRolloutDeploy(second string) *Scenario {
+	sc := &Scenario{Name: "C10-S rollout redeploy waiting for health || " + second, Horizon: 30 * time.Second}
+	const host = "a.example.com"
+	var after map[string]*ReqObs
+	var cmdErr error
+	sc.Run = func(w *World) {
+		after, cmdErr = map[string]*ReqObs{}, nil
+		w.AddTarget("oa:80")
+		w.AddTarget("ra:80")
+		w.AddTarget("rb:80", p500(), pOK())
+		w.Deploy(deployArgs("s1", []string{"oa:80"}, []string{host}, nil))
+		w.RolloutDeploy("s1", []string{"ra:80"})
+		w.RolloutSet("s1", 0, []string{"v"})
+		time.Sleep(100 * time.Millisecond)
+		var wg vsync.WaitGroup
+		wg.Add(2)
+		w.S.SetWindow(true)
+		vsched.GoTagged("cmd", func() {
+			defer wg.Done()
+			w.RolloutDeploy("s1", []string{"rb:80"})
+		})
+		time.Sleep(200 * time.Millisecond)
+		vsched.GoTagged("cmd", func() {
+			defer wg.Done()
+			var c *CmdObs
+			switch second {
+			case "stop":
+				c = w.RolloutStop("s1")
+			case "set-allow-w":
+				c = w.RolloutSet("s1", 0, []string{"w"})
+			case "set-100":
+				c = w.RolloutSet("s1", 100, nil)
+			}
+			cmdErr = c.Err
+		})
+		wg.Wait()
+		w.S.SetWindow(false)
+		for _, ck := range []string{"v", "w", ""} {
+			spec := ReqSpec{ID: "after-" + ck, Host: host}
+			if ck != "" {
+				spec.Cookie = "kamal-rollout=" + ck
+			}
+			after[ck] = w.Do(spec)
+		}
+	}
+	sc.Check = func(w *World) []Violation {
+		var vs []Violation
+		if cmdErr != nil {
+			return []Violation{{"C10", "rollout-command-failed during-rollout-deploy " + second, cmdErr.Error()}}
+		}
+		want := map[string]map[string]string{
+			"stop":        {"v": "oa:80", "w": "oa:80", "": "oa:80"},
+			"set-allow-w": {"v": "oa:80", "w": "rb:80", "": "oa:80"},
+			"set-100":     {"v": "rb:80", "w": "rb:80", "": "oa:80"},
+		}[second]
+		for _, ck := range []string{"v", "w", ""} {
+			r := after[ck]
+			if r == nil || w.HadStall() {
+				continue
+			}
+			if r.Status != 200 || r.ServedBy() != want[ck] {
+				vs = append(vs, Violation{"C10", "split-after-command-not-in-force during-rollout-deploy " + second, fmt.Sprintf("`rollout %s` returned while a rollout redeploy was waiting for its target; after both returned a request with cookie value %q got %s, expected %s", second, ck, r.Summary(), want[ck])})
+			}
+		}
+		return vs
+	}
+	return sc
+}
+
 func checkC10(t *testing.T, job *Job, res *Result) {
 	tier := job.Tier
 	if job.Replay != nil {
@@ -404,6 +476,9 @@ func checkC10(t *testing.T, job *Job, res *Result) {
 		for _, c := range []string{"stop", "set-0", "set-first", "redeploy-rollout"} {
 			scs = append(scs, c10Scenario(c))
 		}
+		for _, c := range []string{"stop", "set-allow-w", "set-100"} {
+			scs = append(scs, c10DuringRolloutDeploy(c))
+		}
 		b := Bounds{D: 2, S: 0}
 		if tier == "thorough" {
 			b = Bounds{D: 3, S: 0}
@@ -411,5 +486,5 @@ func checkC10(t *testing.T, job *Job, res *Result) {
 		runS(t, job, res, "C10", withReversed(scs), b, 0)
 	}
 	res.Engine = "E+H+S"
-	res.Rule += "; engine S: rollout stop / set / first set / rollout redeploy racing with two opted-in requests, every schedule within the bounds: opted-in requests issued after the command returned follow the command"
+	res.Rule += "; engine S: rollout stop / set / first set / rollout redeploy racing with two opted-in requests, every schedule within the bounds: opted-in requests issued after the command returned follow the command; rollout stop / set issued and completed while a rollout redeploy waits for its target's health: the later command's split is in force afterwards"
 }
